@@ -459,7 +459,7 @@ fn main() {
     h.assume("reference model = Vec<colour bits>; debug assertions of the crate are off in this (release) build, so disagreements surface through the model comparison");
     let miri = std::env::var("PV_MIRI").is_ok();
     let maxops = if miri { 30 } else if h.is_thorough() { 200 } else { 40 };
-    let n = if miri { 80 } else { h.n(1_500_000, 20_000_000) };
+    let n = if miri { 40 } else { h.n(1_500_000, 20_000_000) };
     h.prop(
         "programs",
         n,
